@@ -67,6 +67,9 @@ def run(rep, tier, seed):
         conf = ("fat%d-%dclusters" % (bits, clusters), ts * 512, "format 512 %d 512 - %s 2 - - -" % (ts, "-"))
         for k in range(1 if tier == "quick" else 6):
             scripts.append(remount_session(rng, conf, 24, 2))
+    # FAT32 objects whose first cluster needs the high word of the entry, then loses it again
+    for i in range(2 if tier == "quick" else 20):
+        scripts.append(sessions.fat32_high_cluster_session(rng))
     judged = sessions.run_judged(scripts, flags=("tree",), shards=16)
     remounts = 0
     for jd in judged:
